@@ -70,12 +70,11 @@ class Entity(ABC):
         self._partially_hidden = False
         self._public = True
 
-        map_attributes(self, **kwargs)
-
         try:
+            map_attributes(self, **kwargs)
             self.workspace.register(self)
-        except (RuntimeError, ValueError):
-            # refused (identifier in use): leave no trace of the half-built entity
+        except Exception:
+            # refused (invalid attribute or identifier in use): leave no trace of the half-built entity
             siblings = getattr(self._parent, "_children", None)
             if siblings is not None and any(child is self for child in siblings):
                 self._parent._children = [  # type: ignore
